@@ -46,6 +46,8 @@ var DomainValues = []string{
 	"xgoogle.*", "ads.net", "example.com", "example.org", "sub.example.org", "tracker.io",
 	"www.ck", "kawasaki.jp", "city.kawasaki.jp", "co.uk", "com", "localhost", "example.*", "www.google.*", "b.a.*", "ads.example.*", "abc.de", "cafe",
 	"a.b.c.d.e.f.g.h.i.j.k.l.example.org", "h.i.j.k.l.example.org", DeepHost,
+	// Values that end in another value of the vocabulary without being below it.
+	"xa.com", "xgoogle.com", "xa.co.uk", "vil.org", "le.org",
 }
 
 // DenyAllowValues are values for $denyallow (no wildcard: the statement does
@@ -72,7 +74,7 @@ var PatternTemplates = []string{
 	"HOST/ads", "://HOST", "http://HOST", "||HOST/*", "||HOST^$", ".HOST^", "||HOST:8080^",
 	"/ads/banner", "ads", "/ads^", "banner.js|", ".js|", "?q=", "=http", "/path/*/img", "^ads^", "*ads*",
 	"/Ads/b", "ADS.JS", "/abcde", "ababa", "babab", "/banner|", "|ws://", "|http", "://", "^", "*", "|", "||", "",
-	"/track", "/track/*.gif", "pixel.gif|", "ads_banner", "ads%20", "/ads.", "/ad_s.", "/a*s.", "js", "a", "/x?ads=1", "/HOST.",
+	"/track", "/track/*.gif", "pixel.gif|", "ads_banner", "ads%20", "/ads.", "/ad_s.", "/a*s.", "js", "a", "/x?ads=1", "/HOST.", "/price\\$tag", "||HOST/cart\\$total^", "ads\\$", "\\$ads",
 	// Runs of wildcards and wildcards next to other operators.
 	"/bännér", "реклама", "||HOST/реклама^", "İstanbul", "||HOST/**", "/ads/***", "||HOST^**", "ads**banner", "**ads", "||HOST/*/*", "*/ads/*", "|*ads", "ads*|", "^*^", "/banner**|",
 }
